@@ -4,4 +4,6 @@ go 1.23.7
 
 require github.com/rbell/toolchest v0.0.0
 
+require github.com/google/btree v1.1.3 // indirect
+
 replace github.com/rbell/toolchest => /repo
